@@ -372,6 +372,35 @@ def tr_neg_fold(bld_mod):
             f"  match op, operand with\n  | USub, LConst v => Some (LConst {t})\n  | _, _ => None\n  end.")
 
 
+def tr_typed_path(chk_mod):
+    """ExprChecker.check: the early path for expressions that already carry a type must only match the
+    stored type against the target (check_type_against) — no other rule, in particular nothing that
+    re-types an ast.Constant."""
+    cls = find_class(chk_mod, "ExprChecker")
+    f = find_func(cls, "check")
+    params = [a.arg for a in f.args.args]
+    if params != ["self", "expr", "ty", "kind"]:
+        raise TranslatorError(f"ExprChecker.check signature changed: {params}")
+    body = strip_doc(f.body)
+    first = body[0] if body else None
+    if not (isinstance(first, ast.If) and not first.orelse and _u(first.test) == "(actual := get_type_opt(expr))"):
+        raise TranslatorError("ExprChecker.check does not start with `if actual := get_type_opt(expr):`")
+    b = first.body
+    shape = [
+        "expr, subst, inst = check_type_against(actual, ty, expr, self.ctx, kind)",
+        "if inst:\n    expr = with_loc(expr, TypeApply(value=expr, tys=inst))",
+        "return (with_type(ty.substitute(subst), expr), subst)",
+    ]
+    got = [_u(x) for x in b]
+    if got != shape:
+        extra = [g for g in got if g not in shape]
+        raise TranslatorError("ExprChecker.check: the already-typed path is no longer just check_type_against "
+                              f"(a constant must be typed once): unexpected `{(extra or got)[0][:160]}`")
+    return ("(* ExprChecker.check, path for expressions that already have a type: the stored type is matched\n"
+            "   against the target, nothing else *)\n"
+            "Definition check_typed (actual ty : kind) : res kind := check_type_against actual ty.")
+
+
 def translate(ctx) -> str:
     ty_mod = parse_file(ctx.int_src("tys/ty.py"))
     chk = parse_file(ctx.int_src("checker/expr_checker.py"))
@@ -387,6 +416,7 @@ def translate(ctx) -> str:
         f"(* NumericType.INT_WIDTH *)\nDefinition INT_WIDTH : Z := ({w})%Z.\n",
         "(* _int_bounds_check: locals as definitions, then the range test *)\n" + ibc + "\n",
         "(* python_value_to_guppy_type, the `int` cases (bool()/str() cases precede them) *)\n" + tr_value_to_type(chk) + "\n",
+        tr_typed_path(chk) + "\n",
         "(* python_value_to_hugr, `case int()` *)\n" + tr_value_to_hugr(cmp_, "INT_WIDTH") + "\n",
         "(* UnsignedIntVal.__post_init__ and .to_value *)\n" + tr_unsigned_val(ar) + "\n",
         "(* ExprBuilder.visit_UnaryOp *)\n" + tr_neg_fold(bld) + "\n",
